@@ -215,6 +215,166 @@ func flagOutOfRange(b []byte, bits uint32) bool {
 	return false
 }
 
+// movesIntoCurrent: does the program contain a complete MOVE, INCMP or CATCH
+// whose target is the node the session is at? Descending into the node one is
+// already at panics by documented design (state.Down: "down into same node as
+// previous"); like the flag range this is a question of what the program
+// does, not of how it is decoded.
+func movesIntoCurrent(b []byte, cur string) bool {
+	for len(b) >= 2 {
+		op := uint16(b[0])<<8 | uint16(b[1])
+		b = b[2:]
+		ok := true
+		switch op {
+		case vm.NOOP, vm.HALT, vm.MSINK:
+		case vm.MOVE, vm.INCMP, vm.CATCH:
+			if len(b) > 0 && int(b[0]) == len(cur) && len(b) >= 1+len(cur) && string(b[1:1+len(cur)]) == cur {
+				return true
+			}
+			if len(b) > 0 && len(b) >= 1+int(b[0]) {
+				cur = string(b[1 : 1+int(b[0])]) // taken as moved to
+			}
+			if b, ok = refSym(b); ok {
+				switch op {
+				case vm.INCMP:
+					b, ok = refSym(b)
+				case vm.CATCH:
+					if b, ok = refInt(b); ok {
+						if len(b) == 0 {
+							return false
+						}
+						b = b[1:]
+					}
+				}
+			}
+		case vm.CROAK:
+			if b, ok = refInt(b); ok {
+				if len(b) == 0 {
+					return false
+				}
+				b = b[1:]
+			}
+		case vm.LOAD:
+			if b, ok = refSym(b); ok {
+				b, ok = refInt(b)
+			}
+		case vm.RELOAD, vm.MAP:
+			b, ok = refSym(b)
+		case vm.MOUT, vm.MNEXT, vm.MPREV:
+			if b, ok = refSym(b); ok {
+				b, ok = refSym(b)
+			}
+		default:
+			return false
+		}
+		if !ok {
+			return false
+		}
+	}
+	return false
+}
+
+// tailAfterMove: does the program consist of complete instructions, a MOVE,
+// INCMP or CATCH among them, followed by a remainder the reference decoder
+// rejects? The VM appends the target node's code to what is left of the
+// running code, so such a remainder is decoded together with bytes it was
+// never written with (finding F24).
+func tailAfterMove(b []byte) bool {
+	moved := false
+	for len(b) >= 2 {
+		op := uint16(b[0])<<8 | uint16(b[1])
+		b = b[2:]
+		ok := true
+		switch op {
+		case vm.NOOP, vm.MSINK:
+		case vm.HALT:
+			return false // execution stops here, what follows is not decoded
+		case vm.CATCH:
+			if b, ok = refSym(b); ok {
+				if b, ok = refInt(b); ok {
+					if len(b) == 0 {
+						return moved
+					}
+					b = b[1:]
+					moved = true
+				}
+			}
+		case vm.CROAK:
+			if b, ok = refInt(b); ok {
+				if len(b) == 0 {
+					return moved
+				}
+				return false // may end the run, as HALT
+			}
+		case vm.LOAD:
+			if b, ok = refSym(b); ok {
+				b, ok = refInt(b)
+			}
+		case vm.RELOAD, vm.MAP:
+			b, ok = refSym(b)
+		case vm.MOVE:
+			if b, ok = refSym(b); ok {
+				moved = true
+			}
+		case vm.INCMP:
+			if b, ok = refSym(b); ok {
+				if b, ok = refSym(b); ok {
+					moved = true
+				}
+			}
+		case vm.MOUT, vm.MNEXT, vm.MPREV:
+			if b, ok = refSym(b); ok {
+				b, ok = refSym(b)
+			}
+		default:
+			return moved
+		}
+		if !ok {
+			return moved
+		}
+	}
+	return moved && len(b) > 0
+}
+
+// rejectedBeforeStop: reading instructions from the start, does the reference
+// decoder reject one before execution can have stopped or moved (HALT, MOVE,
+// INCMP, CATCH, CROAK)? The instructions before it (NOOP, MSINK, LOAD, RELOAD,
+// MAP, MOUT, MNEXT, MPREV) either fail or fall through to it, so the run must
+// end in an error.
+func rejectedBeforeStop(b []byte) bool {
+	for {
+		if len(b) == 0 {
+			return false
+		}
+		if len(b) < 2 {
+			return true
+		}
+		op := uint16(b[0])<<8 | uint16(b[1])
+		b = b[2:]
+		ok := true
+		switch op {
+		case vm.NOOP, vm.MSINK:
+		case vm.HALT, vm.MOVE, vm.INCMP, vm.CATCH, vm.CROAK:
+			return false
+		case vm.LOAD:
+			if b, ok = refSym(b); ok {
+				b, ok = refInt(b)
+			}
+		case vm.RELOAD, vm.MAP:
+			b, ok = refSym(b)
+		case vm.MOUT, vm.MNEXT, vm.MPREV:
+			if b, ok = refSym(b); ok {
+				b, ok = refSym(b)
+			}
+		default:
+			return true
+		}
+		if !ok {
+			return true
+		}
+	}
+}
+
 // Run: arbitrary bytes as bytecode through Vm.Run on a minimal VM (a state at
 // the entry node, an application with a few nodes and one function): no
 // panic; the run either executes complete instructions or returns an error.
@@ -234,12 +394,29 @@ func Run(v *vrt.Ctx) {
 	var rest []byte
 	var err error
 	if v.Try(func() { rest, err = vmi.Run(context.Background(), code) }) {
-		// the only admissible panic: a flag index outside the configured range
+		// the only admissible panics are the two documented ones that concern
+		// what a well-formed instruction does, not how it is decoded: a flag
+		// index outside the configured range, a descent into the current node
+		if movesIntoCurrent(code, "root") {
+			v.Cover("C15/run-descends-into-current-node")
+			return
+		}
+		v.Finding("F24-partial-instruction-after-a-move", tailAfterMove(code))
 		v.Assert(flagOutOfRange(code, 16), "C15/run-panics-only-on-out-of-range-flag")
 		v.Cover("C15/run-flag-out-of-range")
 		return
 	}
 	v.Observe("err", err)
+	if rejectedBeforeStop(code) {
+		v.Assert(err != nil, "C15/run-rejects-a-malformed-instruction")
+		v.Cover("C15/run-malformed")
+	}
+	if tailAfterMove(code) {
+		// finding F24: the partial instruction is completed with the first
+		// bytes of the target node's code instead of being rejected
+		v.Finding("F24-partial-instruction-after-a-move", true)
+		v.Assert(err != nil, "C15/run-rejects-a-partial-instruction-after-a-move")
+	}
 	if err == nil {
 		v.Cover("C15/run-ok")
 		// what is left over is pending code after a HALT: it must itself be
